@@ -1,4 +1,6 @@
 import Rio.Model.Hash
+import Rio.Proofs.TreeInj
+import Rio.Proofs.HashRefine
 /-!
 # C04 — Different filesets never share a wareID
 
@@ -33,5 +35,58 @@ theorem C04_counter_root (H : Bytes → Bytes) (t : Bytes) :
     hashBucket H [mkRecord { (lnk t) with name := ⟨[], 0⟩ } []] = .ok [] := by
   simp [hashBucket, bucketLines, mkRecord, recordName, lnk, defaultDirMeta, distinctCount, sortRecs, sortBy,
     insertBy, latestRec, RelPath.str, scan, visit, closeAll, closeFrame]
+
+
+/-! ## Injectivity for files and directories (the true half of the statement)
+
+`mview m` is what the serial form carries of a metadata: last name component, type, permission bits, uid,
+gid, link target, device numbers (devices only), mtime seconds + nanoseconds, xattrs in key order.  `TEq` is
+"same hashed content": equal views at every node, equal content hashes for files, the same children position
+by position for directories.  Proofs: `Rio/Proofs/{CborInj,MetaInj,TreeInj}.lean`. -/
+
+/-- **The serialization of a metadata can be decoded**: two serial forms that agree, whatever follows them,
+    carry the same attributes — so any difference in name, type, permission bits, uid, gid, mtime (seconds or
+    nanoseconds), link target, device numbers or xattrs changes the bytes fed to the hash. -/
+theorem C04_meta_inj (m1 m2 : Meta) (b1 : MBounded m1) (b2 : MBounded m2) (r1 r2 : Bytes)
+    (h : serMeta m1 ++ r1 = serMeta m2 ++ r2) : mview m1 = mview m2 ∧ r1 = r2 :=
+  serMeta_inj m1 m2 b1 b2 r1 r2 h
+
+/-- **The byte stream fed to the hash determines the fileset** (files and directories): with a collision-free
+    `H` — in particular the recording hasher `H = id`, whose "hash" *is* the pre-image — equal tree hashes force
+    equal hashed content at every node, in every position. -/
+theorem C04_tree_inj (H : Bytes → Bytes) (hH : ∀ a b, H a = H b → a = b) (t1 t2 : Tree)
+    (h1 : FD H t1) (h2 : FD H t2) (he : specHash H t1 = specHash H t2) : TEq t1 t2 :=
+  specHash_inj H hH t1 t2 h1 h2 he
+
+/-- **Collision reduction for the real hash**: for any `H` with bounded output (SHA-384), two file/directory
+    filesets that share a tree hash are the same fileset, or exhibit a collision of `H`. -/
+theorem C04_tree_inj_or_collision (H : Bytes → Bytes) (hlen : ∀ x, (H x).length < 2 ^ 64) (t1 t2 : Tree)
+    (h1 : FD0 t1) (h2 : FD0 t2) (he : specHash H t1 = specHash H t2) :
+    TEq t1 t2 ∨ ∃ a b, a ≠ b ∧ H a = H b :=
+  specHash_inj_or_collision H hlen t1 t2 h1 h2 he
+
+/-- … and the same for the *implementation*: two well-formed file/directory filesets, records added in any order,
+    for which `HashBucket` returns the same value, are the same fileset or exhibit a collision (via `C05_refine`). -/
+theorem C04_impl_inj_or_collision (H : Bytes → Bytes) (hlen : ∀ x, (H x).length < 2 ^ 64) (t1 t2 : Tree)
+    (w1 : WFRoot t1) (w2 : WFRoot t2) (h1 : FD0 t1) (h2 : FD0 t2) (recs1 recs2 : List Record)
+    (p1 : recs1.Perm (flatten t1)) (p2 : recs2.Perm (flatten t2)) (he : hashBucket H recs1 = hashBucket H recs2) :
+    TEq t1 t2 ∨ ∃ a b, a ≠ b ∧ H a = H b := by
+  rw [hashBucket_refines H t1 w1 recs1 p1, hashBucket_refines H t2 w2 recs2 p2] at he
+  injection he with he
+  apply specHash_inj_or_collision H hlen t1 t2 h1 h2
+  obtain ⟨x1, hx1, _⟩ := specHash_some_of_FD H t1 (FD_of_FD0 H hlen t1 h1)
+  obtain ⟨x2, hx2, _⟩ := specHash_some_of_FD H t2 (FD_of_FD0 H hlen t2 h2)
+  simp only [specId, hx1, hx2, Option.getD_some] at he
+  rw [hx1, hx2, he]
+
+/-- non-vacuity (tests): the hypotheses of `C04_tree_inj` hold for the recording hasher on a concrete tree, and a
+    one-bit permission change of a directory changes its pre-image -/
+private def fileRec (p : Nat) : Record :=
+  mkRecord { defaultDirMeta ⟨[0x61], -1⟩ with kind := .file, perms := p } [1, 2, 3]
+private def smallTree (p q : Nat) : Tree :=
+  .node (mkRecord { rootDir with perms := q } []) (.cons (.node (fileRec p) .nil) .nil)
+
+example : specHash id (smallTree 0o644 0o755) ≠ specHash id (smallTree 0o644 0o750) := by decide
+example : specHash id (smallTree 0o644 0o755) ≠ specHash id (smallTree 0o600 0o755) := by decide
 
 end Rio
